@@ -57,9 +57,9 @@ $(B)/$(1)/libzvbi.a: $$(foreach s,$(LIBSRC),$(B)/$(1)/lib/$$(s).o)
 $(B)/$(1)/mc.o: engine/mc.c engine/mc.h
 	@mkdir -p $$(@D)
 	$$(CC_$(1)) $$(CFLAGS_$(1)) -Wall -Wno-format-truncation -c engine/mc.c -o $$@
-$(B)/$(1)/sched.o: engine/sched.c engine/sched.h
+$(B)/$(1)/sched.o: engine/mc_sched.c engine/mc_sched.h
 	@mkdir -p $$(@D)
-	$$(CC_$(1)) -O1 -g -Wall -c engine/sched.c -o $$@
+	$$(CC_$(1)) -O1 -g -Wall -c engine/mc_sched.c -o $$@
 endef
 $(foreach v,$(VARIANTS),$(eval $(call VARIANT_RULES,$(v))))
 
